@@ -340,6 +340,25 @@ func C09(c *core.Ctx) error {
 		files["a/tagged.go"] = "//go:build special\n\npackage a\n\ntype Tagged interface{ T() }\n"
 		root["packages"].(core.M)[P("a")].(core.M)["interfaces"].(core.M)["Tagged"] = core.M{}
 	})
+	// files that import "C" are compiled from generated copies: the syntax trees of the package are not parallel to
+	// its list of Go files; every listed interface is found all the same, whichever file declares it
+	for _, sel := range []string{"listed", "all"} {
+		sel := sel
+		add("package with two cgo files around a plain one, interfaces "+sel, false, func(root core.M, pcs, ics []core.M, files map[string]string, s *c09scn) {
+			cgo := func(iface, fn string) string {
+				return "package b\n\n// #include <stdlib.h>\nimport \"C\"\n\ntype " + iface + " interface{ M() }\n\nfunc " + fn + "() int { return int(C.abs(-1)) }\n"
+			}
+			files["b/a_cgo.go"] = cgo("InA", "fa")
+			files["b/c_cgo.go"] = cgo("InC", "fc")
+			ifs := root["packages"].(core.M)[P("b")].(core.M)["interfaces"].(core.M)
+			if sel == "listed" {
+				ifs["InA"], ifs["InC"] = core.M{}, core.M{}
+			} else {
+				pcs[1]["all"] = true
+			}
+			s.expect = append(append([]string{}, allMocks...), P("b")+"|InA|MockInA", P("b")+"|InC|MockInC")
+		})
+	}
 	add("package with additional test-only files", false, func(root core.M, pcs, ics []core.M, files map[string]string, s *c09scn) {
 		files["b/b_test.go"] = "package b\n\ntype OnlyInTest interface{ T() }\n"
 		files["b/ext_test.go"] = "package b_test\n"
@@ -505,6 +524,6 @@ func C09(c *core.Ctx) error {
 	c.Ev.Set("outcome_classes", classes)
 	c.Ev.Set("cases", len(scns))
 	c.Ev.Set("exhaustive", done == len(scns)*2)
-	c.Ev.Set("rule", "a valid 3-package configuration is perturbed by one fault at a time, the fault placed in each of the three packages and, where it can be written there, at package and interface level: missing listed interface (alone and with the package's interfaces selected through all / include-interface-regex / recursive at package or top level), missing package, type/syntax error, unknown template/formatter/key, unreadable / unparsable / failing template, schema-rejected template-data, cyclic and malformed templated values, invalid regexes, output the formatter rejects, output path occupied, existing file without force, conflicting mocks for one file (different source packages incl. same-named ones, pkgname, template), root-level and config-file-level faults; plus valid-but-unusual inputs (local types, blank-named type declarations, build tags, test-only files, empty / non-Go / test-only / nested-module directories under a recursive root, YAML-hostile interface names, go.mod spellings, boolean parameters spelled in every letter case in the environment). Every scenario runs under the sorted and the reversed map iteration order (instrumented binary). Invalid => non-zero exit with a diagnostic; valid => exit 0 and exactly the configured mocks; never a panic trace; distinct_nontrivial = invalid scenarios rejected")
+	c.Ev.Set("rule", "a valid 3-package configuration is perturbed by one fault at a time, the fault placed in each of the three packages and, where it can be written there, at package and interface level: missing listed interface (alone and with the package's interfaces selected through all / include-interface-regex / recursive at package or top level), missing package, type/syntax error, unknown template/formatter/key, unreadable / unparsable / failing template, schema-rejected template-data, cyclic and malformed templated values, invalid regexes, output the formatter rejects, output path occupied, existing file without force, conflicting mocks for one file (different source packages incl. same-named ones, pkgname, template), root-level and config-file-level faults; plus valid-but-unusual inputs (local types, blank-named type declarations, build tags, cgo files, test-only files, empty / non-Go / test-only / nested-module directories under a recursive root, YAML-hostile interface names, go.mod spellings, boolean parameters spelled in every letter case in the environment). Every scenario runs under the sorted and the reversed map iteration order (instrumented binary). Invalid => non-zero exit with a diagnostic; valid => exit 0 and exactly the configured mocks; never a panic trace; distinct_nontrivial = invalid scenarios rejected")
 	return nil
 }
